@@ -119,22 +119,28 @@ def gate_worker(arg):
     allclips = _dedupe(per[0][2] + per[1][2])
     allguards = _dedupe(per[0][3] + per[1][3])
     if allclips:
-        active = z3.Or(*[z3.Not(cnd) for cnd in allclips])
-        if D.satisfiable(hyps + [active]) != "unsat":
-            if allguards:
-                obls.append((f"{short}:clip-active region is away from the singular points", hyps + [active], z3.And(*[z3.Not(g) for g in allguards])))
-            ng = [z3.Not(g) for g in allguards]
-            if pub["kind"] == "ab":
-                (ac, ap, _, _), (bc, bp, _, _) = per
-                xc, xp, tc, tp = ac / (ac + bc), ap / (ap + bp), 1 / (ac + bc), 1 / (ap + bp)
-                pos = [ap > 0, bp > 0]      # published rates are positive (sign facts of exp; helps the solver, proved separately)
-                obls.append((f"{short}:published rates positive[clip-active region]", hyps + [active] + ng, z3.And(*pos)))
-            else:
-                (xc, xp, _, _), (tc, tp, _, _) = per
-                pos = [tp > 0]
-                obls.append((f"{short}:published tau positive[clip-active region]", hyps + [active] + ng, z3.And(*pos)))
-            obls.append((f"{short}:|x_inf - published| <= 1e-6[clip-active region]", hyps + [active] + ng + pos, _absle(xc - xp, TOL)))
-            obls.append((f"{short}:|tau - published| <= 1e-6*tau[clip-active region]", hyps + [active] + ng + pos, _absle(tc - tp, TOL * tp)))
+        any_active = z3.Or(*[z3.Not(cnd) for cnd in allclips])
+        if D.satisfiable(hyps + [any_active]) != "unsat":
+            # one case per clip that can be active (smaller, stable queries); together they cover the clip-active region
+            for ci, cnd in enumerate(allclips):
+                active = z3.Not(cnd)
+                if D.satisfiable(hyps + [active]) == "unsat":
+                    continue
+                tag = f"clip#{ci} active"
+                if allguards:
+                    obls.append((f"{short}:{tag}: region is away from the singular points", hyps + [active], z3.And(*[z3.Not(g) for g in allguards])))
+                ng = [z3.Not(g) for g in allguards]
+                if pub["kind"] == "ab":
+                    (ac, ap, _, _), (bc, bp, _, _) = per
+                    xc, xp, tc, tp = ac / (ac + bc), ap / (ap + bp), 1 / (ac + bc), 1 / (ap + bp)
+                    pos = [ap > 0, bp > 0, ac > 0, bc > 0]      # sign facts, proved as their own obligation first
+                    obls.append((f"{short}:{tag}: code and published rates positive", hyps + [active] + ng, z3.And(*pos)))
+                else:
+                    (xc, xp, _, _), (tc, tp, _, _) = per
+                    pos = [tp > 0, tc > 0]
+                    obls.append((f"{short}:{tag}: code and published tau positive", hyps + [active] + ng, z3.And(*pos)))
+                obls.append((f"{short}:|x_inf - published| <= 1e-6[{tag}]", hyps + [active] + ng + pos, _absle(xc - xp, TOL)))
+                obls.append((f"{short}:|tau - published| <= 1e-6*tau[{tag}]", hyps + [active] + ng + pos, _absle(tc - tp, TOL * tp)))
         else:
             out["results"].append({"name": f"{short}:clips inactive on the whole C04 domain", "status": "proved", "backend": "z3", "time_s": 0.0, "model": {}, "detail": ""})
     boxes = {"v": (V_LO, V_HI), "vt": (-80, -40), "vx": (-10, 10), "taumax": (100, 10000)}
